@@ -370,7 +370,8 @@ impl Expected {
 // ---------------------------------------------------------------------------------------
 // generation of valid programs (construction, no rejection)
 
-pub const NAME_POOL: [&str; 10] = ["a", "b", "c", "d", "e", "f", "g", "h", "i", "j"];
+/// includes near misses (case, trailing blank, prefix) and the empty string: all legal, all distinct
+pub const NAME_POOL: [&str; 14] = ["a", "b", "c", "d", "e", "f", "g", "h", "i", "j", "A", "a ", "ab", ""];
 
 /// raw random numbers -> valid program. `l` model parameters, up to `max_fn` functions.
 pub fn valid_program(us: &[u16], l: usize, max_fn: usize, max_arity: usize, n: usize) -> Program {
